@@ -763,7 +763,7 @@ theorem freeBlocks_inv : ∀ (L : List Block) (a : CBA) (bs : List Block), Inv a
   | b :: L, a, bs, hi, hL, hp => by
     have hb := hL b (by simp)
     have hm := tiles_mem hi.tiles hb.1
-    obtain ⟨a1, bs1, e1, hi1, hf1, hu1⟩ := free_inv hi (x := b.start) (by omega)
+    obtain ⟨a1, bs1, e1, hi1, hf1, hu1⟩ := free_inv hi (x := b.start)
     simp only [freeBlocks, e1]
     have hp' := List.pairwise_cons.mp hp
     have hL1 : ∀ d ∈ L, d ∈ bs1 ∧ d.used = true := fun d hd => by
